@@ -38,8 +38,9 @@ def main():
     r6 = "--round6" in sys.argv
     r7 = "--round7" in sys.argv
     r8 = "--round8" in sys.argv
-    src = f"/tmp/seed8/{prop}-out/{which}" if r8 else f"/tmp/seed7/{prop}-out/{which}" if r7 else f"/tmp/seed6/{prop}-out/{which}" if r6 else f"/tmp/seed5/{prop}-out/{which}" if r5 else f"/tmp/seed4/{prop}-out/{which}" if r4 else f"/tmp/seed3/{prop}-out/{which}" if r3 else (f"/tmp/seed2/{prop}-out/{which}" if r2 else f"/tmp/seed/{prop}-out/{which}")
-    sid = f"{prop}-{ {'A': 'N', 'B': 'O'}[which] }" if r8 else f"{prop}-{ {'A': 'M', 'B': 'N'}[which] }" if r7 else f"{prop}-{ {'A': 'K', 'B': 'L'}[which] }" if r6 else f"{prop}-{ {'A': 'I', 'B': 'J'}[which] }" if r5 else f"{prop}-{ {'A': 'G', 'B': 'H'}[which] }" if r4 else f"{prop}-{ {'A': 'E', 'B': 'F'}[which] }" if r3 else (f"{prop}-{ {'A': 'C', 'B': 'D'}[which] }" if r2 else f"{prop}-{which}")
+    r9 = "--round9" in sys.argv
+    src = f"/tmp/seed9/{prop}-out/{which}" if r9 else f"/tmp/seed8/{prop}-out/{which}" if r8 else f"/tmp/seed7/{prop}-out/{which}" if r7 else f"/tmp/seed6/{prop}-out/{which}" if r6 else f"/tmp/seed5/{prop}-out/{which}" if r5 else f"/tmp/seed4/{prop}-out/{which}" if r4 else f"/tmp/seed3/{prop}-out/{which}" if r3 else (f"/tmp/seed2/{prop}-out/{which}" if r2 else f"/tmp/seed/{prop}-out/{which}")
+    sid = f"{prop}-O" if r9 else f"{prop}-{ {'A': 'N', 'B': 'O'}[which] }" if r8 else f"{prop}-{ {'A': 'M', 'B': 'N'}[which] }" if r7 else f"{prop}-{ {'A': 'K', 'B': 'L'}[which] }" if r6 else f"{prop}-{ {'A': 'I', 'B': 'J'}[which] }" if r5 else f"{prop}-{ {'A': 'G', 'B': 'H'}[which] }" if r4 else f"{prop}-{ {'A': 'E', 'B': 'F'}[which] }" if r3 else (f"{prop}-{ {'A': 'C', 'B': 'D'}[which] }" if r2 else f"{prop}-{which}")
     wt = f"/tmp/seedv/{sid}"
     os.makedirs("/tmp/seedv", exist_ok=True)
     PRIV_TMP = f"/tmp/seedv/tmp-{sid}"
